@@ -157,6 +157,64 @@ func VerifH_C13_QuiescentState() {
 	nd.Assert(len(stats.Workers) <= 2*limit, "stats-workers-within-bound")
 }
 
+// Progress when heads arrive faster than they are sampled: every sample blocks
+// until released, so both worker slots of a DASer that is caught up (or one
+// height behind) are busy while 2..3 consecutive heads arrive and the
+// coordinator has to drop newest-head jobs. Once sampling proceeds, at
+// quiescence every known height has been sampled and the statistics do not
+// claim more than that.
+//
+//verif:opts nodeadlock preempt=0 threads=10 maxwall=1500 cover=quiescent,dropped
+func VerifH_C13_ProgressAfterHeadsWereDropped() {
+	start := nd.U64("start")
+	nd.Assume(start >= 2 && start < 1<<62)
+	head := start - 1 + uint64(nd.Choice(2, "backlog")) // caught up, or one height to catch up
+	gate := make(chan struct{})
+	g := &verifGhost{}
+	slow := func(ctx context.Context, h *header.ExtendedHeader) error {
+		select {
+		case <-gate:
+		case <-ctx.Done():
+			return ctx.Err()
+		}
+		g.sampled = append(g.sampled, h.Height())
+		return nil
+	}
+	sc := newSamplingCoordinator(Parameters{
+		SamplingRange:    uint64(1 + nd.Choice(2, "range")),
+		ConcurrencyLimit: 1,
+		SampleTimeout:    time.Minute,
+	}, verifGetter{}, slow)
+	ctx, cancel := context.WithCancel(context.Background())
+	defer cancel()
+	go sc.run(ctx, checkpoint{SampleFrom: start, NetworkHead: head})
+	nd.RunOthers()
+	n := 2 + nd.Choice(2, "heads")
+	for i := 0; i < n; i++ {
+		head++
+		sc.listen(ctx, verifHeader(head))
+		nd.RunOthers()
+	}
+	stats, err := sc.stats(ctx)
+	nd.Assert(err == nil, "stats-available")
+	nd.Assert(len(stats.Workers) <= 2, "at-most-twice-the-limit-including-recent-jobs")
+	if len(stats.Workers) == 2 && n == 3 {
+		nd.Cover("dropped") // the third head found both slots busy
+	}
+	close(gate) // sampling proceeds
+	nd.RunOthers()
+	nd.Cover("quiescent")
+	st := &sc.state
+	nd.Assert(len(st.inProgress) == 0, "every-started-job-reported-its-result")
+	nd.Assert(st.networkHead == head, "network-head-learned")
+	h := nd.U64("h")
+	nd.Assume(start <= h && h <= head)
+	nd.Assert(g.wasSampled(h), "every-known-height-sampled-once-sampling-proceeds")
+	nd.Assert(st.catchUpDone.Load(), "catch-up-done-when-nothing-is-pending")
+	fin := st.unsafeStats()
+	nd.Assert(nd.Implies(h <= fin.SampledChainHead, g.wasSampled(h)), "sampled-chain-head-below-every-unsampled-height")
+}
+
 // A job whose sampler returns an error that wraps context.Canceled while the
 // DASer keeps running still reports its outcome.
 //
